@@ -17,7 +17,6 @@ git -C /repo worktree add -q --detach /tmp/vb-$n/repo HEAD
 cp -a /verif/lean/.lake /tmp/vb-$n/verif/lean/.lake
 mkdir -p /tmp/vb-$n/verif/lean/EzdxfVerif/Gen /tmp/vb-$n/verif/.scratch
 cp -a /verif/lean/EzdxfVerif/Gen/*.lean /tmp/vb-$n/verif/lean/EzdxfVerif/Gen/ 2>/dev/null || true
-cp /verif/.scratch/BUILDER_BRIEF.md /tmp/vb-$n/verif/.scratch/ 2>/dev/null || true
 cp -a /repo/src/ezdxf/acc/*.so /tmp/vb-$n/repo/src/ezdxf/acc/
 cp -a /repo/src/ezdxf/acc/*.c /repo/src/ezdxf/acc/*.cpp /tmp/vb-$n/repo/src/ezdxf/acc/ 2>/dev/null || true
 touch /tmp/vb-$n/repo/src/ezdxf/acc/*.so
